@@ -17,7 +17,10 @@ import (
 
 // Close-vs-tick stress.  One line = one configuration
 //
-//	stress <seed> <periodNs> <gomaxprocs> <users> <usesPerUser> <target: root|child|both> <attempts>
+//	stress <seed> <periodNs> <gomaxprocs> <users> <usesPerUser> <target: root|late|child|both> <attempts>
+//
+// (`late` = root Close against a tree with tiny capacities in which nearly every request has to queue, so that requests
+// are being queued at the very moment Close marks the tree and the goroutine drains the queue and ends.)
 //
 // executed in a child process, so that a deadlock inside the package cannot hang the check: the child reports the first
 // attempt that does not finish within 5 s (all goroutines of the attempt are abandoned) and the parent kills a child
@@ -25,14 +28,14 @@ import (
 type stressArea struct{}
 
 func (stressArea) Gen(r *hx.Rng, n int, tier string, emit func(string)) {
-	attempts := 20
+	attempts := 150
 	if tier == "thorough" {
-		attempts = 60
+		attempts = 300
 	}
 	for i := 0; i < n; i++ {
 		period := hx.Pick(r, []int{1000, 1000, 1000, 2000, 5000, 20000, 100000, 1000000})
 		emit(fmt.Sprintf("stress %d %d %d %d %d %s %d", r.U64()%1000000007, period, hx.Pick(r, []int{1, 2, 4, 16}),
-			hx.Pick(r, []int{1, 2, 4, 8}), hx.Pick(r, []int{5, 20, 50}), hx.Pick(r, []string{"root", "root", "child", "both"}),
+			hx.Pick(r, []int{1, 2, 4, 8}), hx.Pick(r, []int{5, 20, 50}), hx.Pick(r, []string{"root", "late", "late", "child", "both"}),
 			attempts))
 	}
 }
@@ -124,6 +127,16 @@ func stressChild(line string) string {
 // attempt returns "" when everything required by the property was observed.
 func attempt(r *hx.Rng, period time.Duration, users, uses int, target string, phase *atomic.Value, answers *int) string {
 	rootCap := r.Range(1, 20)
+	late := target == "late"
+	if late {
+		target = "root"
+		rootCap = r.Range(1, 2)
+		uses *= 4
+	}
+	limits := !late && r.Chance(1, 4) // capacities and amounts at the limits of int
+	if limits {
+		rootCap = hx.Pick(r, []int{maxInt, maxInt - 1, maxInt/2 + 1})
+	}
 	root := rate.New(rootCap, period)
 	lims := []stressLim{{l: root, parent: -1, cap: rootCap}}
 	for i, k := 0, r.Range(1, 5); i < k; i++ {
@@ -132,6 +145,12 @@ func attempt(r *hx.Rng, period time.Duration, users, uses int, target string, ph
 			p = 0
 		}
 		c := hx.Pick(r, []int{1, lims[p].cap, lims[p].cap + 3, lims[p].cap / 2, r.Range(1, 25)})
+		if limits {
+			c = hx.Pick(r, []int{maxInt, maxInt - 1, maxInt/2 + 1, lims[p].cap, 1000})
+		}
+		if late {
+			c = r.Range(1, 2)
+		}
 		if c < 0 {
 			c = 0
 		}
@@ -161,6 +180,9 @@ func attempt(r *hx.Rng, period time.Duration, users, uses int, target string, ph
 		for i, k := 0, r.Range(1, 12); i < k; i++ {
 			li := r.Intn(len(lims))
 			nc := hx.Pick(r, []int{0, 1, lims[li].cap / 2, lims[li].cap - 1, lims[li].cap + 2, r.Range(0, 30)})
+			if limits {
+				nc = hx.Pick(r, []int{maxInt, maxInt - 1, maxInt/2 + 1, lims[li].cap / 2, 500})
+			}
 			if nc < 0 {
 				nc = 0
 			}
@@ -204,6 +226,12 @@ func attempt(r *hx.Rng, period time.Duration, users, uses int, target string, ph
 				li := ur.Intn(len(lims))
 				c := lims[li].cap
 				amt := hx.Pick(ur, []int{0, 1, 1, 2, c, c + 1, -1, ur.Range(1, 6), ur.Range(1, 25)})
+				if limits {
+					amt = hx.Pick(ur, []int{0, 1, 500, c, c - 10, c/2 + 1, maxInt, maxInt - 10, maxInt/2 + 1, -1})
+				}
+				if late {
+					amt = ur.Range(1, c)
+				}
 				mine = append(mine, issued{ch: lims[li].l.Use(amt), lim: li, amt: amt})
 				if ur.Chance(1, 4) {
 					runtime.Gosched()
@@ -215,6 +243,9 @@ func attempt(r *hx.Rng, period time.Duration, users, uses int, target string, ph
 		}()
 	}
 	spin := r.Intn(3000)
+	if late {
+		spin = r.Intn(40000)
+	}
 	var cwg sync.WaitGroup
 	closer := func(i int, spin int) {
 		defer cwg.Done()
